@@ -195,7 +195,11 @@ theorem ivAwait_ind (now id a : Nat) (Q R : Timer → Target → Prop)
 /-! ### micro-transitions of one poll of a timer task -/
 
 inductive Micro (now id : Nat) : Timer × Target → Timer × Target → Prop
-  | arm (τ T) : τ.res = .pending → τ.armed = none → Micro now id (τ, T) (τ.arm now, T)
+  | arm (τ T) : τ.res = .pending → τ.armed = none → (τ.kind = .interval → 0 < τ.period) →
+      Micro now id (τ, T) (τ.arm now, T)
+  /-- `interval(Duration::ZERO)` panics at the first poll -/
+  | panic (τ T) : τ.res = .pending → τ.kind = .interval → τ.period = 0 →
+      Micro now id (τ, T) (τ.finish .panicked now, T)
   | prime (τ T a) : τ.res = .pending → τ.kind = .interval → τ.armed = some a → wheelDeadline a 0 ≤ now →
       T.active = true → Micro now id (τ, T) (τ.prime, T)
   | primeHead (τ T a) : τ.res = .pending → τ.kind = .interval → τ.armed = some a → wheelDeadline a 0 ≤ now →
@@ -274,14 +278,20 @@ theorem fireOne_ind (now id : Nat) (Q : Timer × Target → Prop)
   unfold fireOne
   by_cases hp : τ.res = .pending
   · simp only [hp, ne_eq, not_true_eq_false, ↓reduceIte]
-    cases ha : τ.armed with
-    | none =>
-      have hQa := hQ _ _ (.arm τ T hp ha) h
-      exact fireArmed_ind now id _ Q hQ _ T hp (by simp [Timer.arm, ha]) hQa
-    | some a =>
-      have : τ.arm now = τ := by cases τ; simp_all [Timer.arm]
-      rw [this]
-      exact fireArmed_ind now id _ Q hQ _ T hp (by simp [ha]) h
+    by_cases hz : τ.kind = .interval ∧ τ.period = 0
+    · simp only [hz, and_self, ↓reduceIte]
+      exact hQ _ _ (.panic τ T hp hz.1 hz.2) h
+    · simp only [hz, ↓reduceIte]
+      have hpos : τ.kind = .interval → 0 < τ.period := fun hk =>
+        Nat.pos_of_ne_zero (fun h0 => hz ⟨hk, h0⟩)
+      cases ha : τ.armed with
+      | none =>
+        have hQa := hQ _ _ (.arm τ T hp ha hpos) h
+        exact fireArmed_ind now id _ Q hQ _ T hp (by simp [Timer.arm, ha]) hQa
+      | some a =>
+        have : τ.arm now = τ := by cases τ; simp_all [Timer.arm]
+        rw [this]
+        exact fireArmed_ind now id _ Q hQ _ T hp (by simp [ha]) h
   · simpa [hp] using h
 
 end Timers
@@ -297,7 +307,10 @@ structure TInv (now : Nat) (cl : Option Nat) (τ : Timer) : Prop where
   armed_ok : ∀ a, τ.armed = some a → τ.created ≤ a ∧ a ≤ now ∧ earlyOk a τ.period 0 τ.sentAt = true
   unarmed : τ.armed = none → τ.sentAt = []
   sent_le : ∀ t ∈ τ.sentAt, t ≤ now
-  pos : τ.kind = .interval → 0 < τ.period
+  /-- an interval that got past `interval(period)` has a positive period -/
+  pos : τ.kind = .interval → τ.armed ≠ none → 0 < τ.period
+  /-- only `interval(Duration::ZERO)` panics -/
+  panic : τ.res = .panicked → τ.kind = .interval ∧ τ.period = 0
   shot : τ.kind.oneShot = true →
     (τ.res = .pending → τ.sentAt = []) ∧ (τ.res = .cancelled → τ.sentAt = []) ∧
     (τ.res = .ok → τ.sentAt.length = 1) ∧ (τ.res = .err → τ.sentAt.length = 1 ∧ τ.kind = .sendAfter)
@@ -331,7 +344,26 @@ theorem Micro.tinv {now id : Nat} {x y : Timer × Target} (m : Micro now id x y)
     (hcl : ∀ tc, x.2.closedAt = some tc → tc ≤ now)
     (h : TInv now x.2.closedAt x.1) : TInv now y.2.closedAt y.1 ∧ y.2.closedAt = x.2.closedAt := by
   cases m with
-  | arm τ T hp ha =>
+  | panic τ T hp hk hz =>
+    refine ⟨?_, rfl⟩
+    exact {
+      created_le := h.created_le
+      armed_ok := h.armed_ok
+      unarmed := h.unarmed
+      sent_le := h.sent_le
+      pos := h.pos
+      panic := fun _ => ⟨hk, hz⟩
+      shot := by simp [hk, Kind.oneShot]
+      noerr := by simp
+      fin_none := by simp
+      fin_some := by
+        intro tf e; simp only [finish_finAt, Option.some.injEq] at e; subst e
+        exact ⟨by simp, Nat.le_refl _, h.sent_le⟩
+      closed := by
+        intro tc htc hs
+        exact ⟨by simp, (h.closed tc htc (by simp [hk, Kind.sends])).2⟩
+      accept := by intro hk'; simp [hk] at hk' }
+  | arm τ T hp ha hz =>
     refine ⟨?_, rfl⟩
     have hs : τ.sentAt = [] := h.unarmed ha
     exact {
@@ -341,7 +373,8 @@ theorem Micro.tinv {now id : Nat} {x y : Timer × Target} (m : Micro now id x y)
         exact ⟨h.created_le, Nat.le_refl _, by simp [hs, earlyOk]⟩
       unarmed := by simp
       sent_le := h.sent_le
-      pos := h.pos
+      pos := fun hk _ => hz hk
+      panic := h.panic
       shot := h.shot
       noerr := h.noerr
       fin_none := h.fin_none
@@ -365,6 +398,7 @@ theorem Micro.tinv {now id : Nat} {x y : Timer × Target} (m : Micro now id x y)
       unarmed := h.unarmed
       sent_le := h.sent_le
       pos := h.pos
+      panic := h.panic
       shot := h.shot
       noerr := h.noerr
       fin_none := h.fin_none
@@ -380,6 +414,7 @@ theorem Micro.tinv {now id : Nat} {x y : Timer × Target} (m : Micro now id x y)
       unarmed := h.unarmed
       sent_le := h.sent_le
       pos := h.pos
+      panic := by simp
       shot := by simp [hk, Kind.oneShot]
       noerr := by simp
       fin_none := by simp
@@ -409,6 +444,7 @@ theorem Micro.tinv {now id : Nat} {x y : Timer × Target} (m : Micro now id x y)
         · exact h.sent_le t ht
         · exact Nat.le_refl _
       pos := h.pos
+      panic := h.panic
       shot := by simp [hk, Kind.oneShot]
       noerr := fun _ => by simp [hp]
       fin_none := fun _ => hp
@@ -437,6 +473,7 @@ theorem Micro.tinv {now id : Nat} {x y : Timer × Target} (m : Micro now id x y)
         · exact h.sent_le t ht
         · exact Nat.le_refl _
       pos := h.pos
+      panic := by simp
       shot := by simp [hk, Kind.oneShot]
       noerr := by simp
       fin_none := by simp
@@ -463,6 +500,7 @@ theorem Micro.tinv {now id : Nat} {x y : Timer × Target} (m : Micro now id x y)
       unarmed := h.unarmed
       sent_le := h.sent_le
       pos := h.pos
+      panic := by simp
       shot := by simp [hk, Kind.oneShot]
       noerr := by simp
       fin_none := by simp
@@ -489,6 +527,7 @@ theorem Micro.tinv {now id : Nat} {x y : Timer × Target} (m : Micro now id x y)
       unarmed := by simp [ha]
       sent_le := by simp [hs]
       pos := h.pos
+      panic := by simp
       shot := by simp [hs]
       noerr := by simp
       fin_none := by simp
@@ -514,6 +553,7 @@ theorem Micro.tinv {now id : Nat} {x y : Timer × Target} (m : Micro now id x y)
       unarmed := by simp [ha]
       sent_le := by simp [hs]
       pos := h.pos
+      panic := by simp
       shot := by simp [hs, hk]
       noerr := by simp [hk, Kind.oneShot]
       fin_none := by simp
@@ -551,6 +591,7 @@ theorem Micro.tinv {now id : Nat} {x y : Timer × Target} (m : Micro now id x y)
       unarmed := by simp [ha]
       sent_le := by simp [hs]
       pos := h.pos
+      panic := by simp
       shot := by simp [hs]
       noerr := by simp
       fin_none := by simp
@@ -574,6 +615,7 @@ theorem Micro.tinv {now id : Nat} {x y : Timer × Target} (m : Micro now id x y)
       unarmed := by simp [ha]
       sent_le := by simp [hs]
       pos := h.pos
+      panic := by simp
       shot := by simp [hs]
       noerr := by simp
       fin_none := by simp
@@ -642,7 +684,8 @@ theorem Micro.frame {now id : Nat} {x y : Timer × Target} (m : Micro now id x y
     (h : Frame id T0 x.1 x.2) : Frame id T0 y.1 y.2 := by
   have h' := h.mono m.le
   cases m with
-  | arm τ T _ _ => exact h'
+  | arm τ T _ _ _ => exact h'
+  | panic τ T _ _ _ => exact h'
   | prime τ T a _ _ _ _ _ => exact h'
   | primeHead τ T a _ _ _ _ _ => exact h'
   | ivFail τ T a _ _ _ _ _ => exact h'
@@ -992,6 +1035,7 @@ theorem Inv.abort {s : State} (h : Inv s) (i : Nat) : Inv (step s (.abort i)) :=
               unarmed := ht.unarmed
               sent_le := ht.sent_le
               pos := ht.pos
+              panic := by simp
               shot := by
                 intro ho
                 have := (ht.shot ho).1 hp
@@ -1022,9 +1066,7 @@ theorem Inv.abort {s : State} (h : Inv s) (i : Nat) : Inv (step s (.abort i)) :=
 
 theorem Inv.create {s : State} (h : Inv s) (k : Kind) (p : Nat) : Inv (step s (.create k p)) := by
   unfold step
-  by_cases hz : k = .interval ∧ p = 0
-  · simpa [hz] using h
-  · simp only [hz, ↓reduceIte]
+  · simp only
     have he : Ext s.timers (s.timers ++ [{ kind := k, period := p, created := s.now }]) := Ext.append _ _
     exact {
       tinv := by
@@ -1037,11 +1079,8 @@ theorem Inv.create {s : State} (h : Inv s) (k : Kind) (p : Nat) : Inv (step s (.
             armed_ok := by intro a e; cases e
             unarmed := fun _ => rfl
             sent_le := by intro t ht; cases ht
-            pos := by
-              intro hk; simp only at hk
-              rcases Nat.eq_zero_or_pos p with hp | hp
-              · exact absurd ⟨hk, hp⟩ hz
-              · exact hp
+            pos := by intro _ e; simp at e
+            panic := by simp
             shot := by intro _; simp
             noerr := by intro _; simp
             fin_none := fun _ => rfl
@@ -1398,6 +1437,19 @@ theorem Inv.psrelease {s : State} (h : Inv s) : Inv (step s .psrelease) := by
       mbox_ok := h.mbox_ok
       handled_ok := fun hd hh => handledOk_mono (s := s) (Ext.refl _) (h.handled_ok hd hh) }
 
+theorem Inv.dropHandle {s : State} (h : Inv s) (i : Nat) : Inv (step s (.dropHandle i)) :=
+  { tinv := h.tinv
+    closed_le := h.closed_le
+    exit_ok := by
+      intro rr te e
+      obtain ⟨a, b, c⟩ := h.exit_ok rr te e
+      exact ⟨a, b, reasonOk_mono (s := s) (Ext.refl _) id id c⟩
+    stop_src := h.stop_src
+    stopping_src := h.stopping_src
+    kill_src := h.kill_src
+    mbox_ok := h.mbox_ok
+    handled_ok := fun hd hh => handledOk_mono (s := s) (Ext.refl _) (h.handled_ok hd hh) }
+
 theorem Inv.step {s : State} (h : Inv s) (op : Op) : Inv (step s op) := by
   cases op with
   | create k p => exact h.create k p
@@ -1411,6 +1463,7 @@ theorem Inv.step {s : State} (h : Inv s) (op : Op) : Inv (step s op) := by
   | mark => exact h.mark
   | hold => exact h.hold
   | psrelease => exact h.psrelease
+  | dropHandle i => exact h.dropHandle i
 
 theorem Inv.steps {s : State} (h : Inv s) (ops : List Op) : Inv (steps s ops) := by
   induction ops generalizing s with
@@ -1439,6 +1492,9 @@ theorem TInv.timerOk {s : State} {τ : Timer} (h : TInv s.now s.target.closedAt 
       | cancelled => simp [b hr]
       | ok => simp [c hr]
       | err => simp [(d hr).1, (d hr).2]
+      | panicked =>
+        have := (h.panic hr).1
+        rw [this] at ho; simp [Kind.oneShot] at ho
   have hnoerr : (τ.kind.oneShot || τ.res != .err) = true := by
     cases ho : τ.kind.oneShot with
     | true => rfl
@@ -1467,6 +1523,7 @@ theorem TInv.timerOk {s : State} {τ : Timer} (h : TInv s.now s.target.closedAt 
       cases hr : τ.res with
       | pending => rfl
       | cancelled => rfl
+      | panicked => rfl
       | ok =>
         cases hc : s.target.closedAt with
         | none => rfl
@@ -1477,8 +1534,31 @@ theorem TInv.timerOk {s : State} {τ : Timer} (h : TInv s.now s.target.closedAt 
         simpa using a3
     · have : (τ.kind != Kind.sendAfter) = true := by simpa using hk
       simp [this]
+  have hpan : panicOk τ = true := by
+    unfold panicOk
+    have h1 : (τ.res != .panicked || (τ.kind == .interval && τ.period == 0)) = true := by
+      by_cases hr : τ.res = .panicked
+      · obtain ⟨a, b⟩ := h.panic hr
+        simp [a, b]
+      · simp [hr]
+    have h2 : (!(τ.kind == .interval && τ.period == 0) || τ.sentAt.isEmpty) = true := by
+      by_cases hz : τ.kind = .interval ∧ τ.period = 0
+      · have hn : τ.armed = none := by
+          cases ha : τ.armed with
+          | none => rfl
+          | some a =>
+            have := h.pos hz.1 (by simp [ha])
+            omega
+        simp [h.unarmed hn]
+      · have : (τ.kind == .interval && τ.period == 0) = false := by
+          simp only [Bool.and_eq_false_iff, beq_eq_false_iff_ne, ne_eq]
+          by_cases hk1 : τ.kind = .interval
+          · exact .inr (fun hp => hz ⟨hk1, hp⟩)
+          · exact .inl hk1
+        simp [this]
+    rw [h1, h2]; rfl
   unfold Timers.timerOk
-  rw [hearly, hsent, hshot, hnoerr, hfin, hcl, hacc]; rfl
+  rw [hearly, hsent, hshot, hnoerr, hfin, hcl, hacc, hpan]; rfl
 
 theorem Inv.ok {s : State} (h : Inv s) : ok s = true := by
   unfold Timers.ok
@@ -1549,11 +1629,17 @@ theorem ivAwait_quiet (now id a : Nat) : ∀ (fuel : Nat) (τ : Timer) (T : Targ
     · simp only [hd, ↓reduceIte]
       exact fun _ => ⟨a, ha, by omega, fun _ h => by rw [hpr] at h; cases h⟩
 
-theorem fireOne_quiet (now id : Nat) (τ : Timer) (T : Target) (hpos : τ.kind = .interval → 0 < τ.period) :
+theorem fireOne_quiet (now id : Nat) (τ : Timer) (T : Target) :
     Quiet now (fireOne now id τ T).1 := by
   unfold fireOne
   by_cases hp : τ.res = .pending
   · simp only [hp, ne_eq, not_true_eq_false, ↓reduceIte]
+    by_cases hz : τ.kind = .interval ∧ τ.period = 0
+    · simp only [hz, and_self, ↓reduceIte]
+      intro h; simp at h
+    simp only [hz, ↓reduceIte]
+    have hpos : τ.kind = .interval → 0 < τ.period := fun hk =>
+      Nat.pos_of_ne_zero (fun h0 => hz ⟨hk, h0⟩)
     generalize ha : τ.armed.getD now = a
     have harm : (τ.arm now).armed = some a := by simp [ha]
     have hk : (τ.arm now).kind = τ.kind := rfl
@@ -1623,6 +1709,7 @@ theorem calm_now {s : State} {op : Op} (hc : op.calm = true) : (step s op).now =
   | mark => rfl
   | hold => rfl
   | psrelease => rfl
+  | dropHandle j => rfl
 
 theorem calm_length {s : State} {op : Op} (hc : op.calm = true) :
     (step s op).timers.length = s.timers.length := by
@@ -1644,8 +1731,9 @@ theorem calm_length {s : State} {op : Op} (hc : op.calm = true) :
   | mark => rfl
   | hold => rfl
   | psrelease => rfl
+  | dropHandle j => rfl
 
-theorem QuietAt.fire {s : State} (h : Inv s) (i : Nat) : QuietAt i (step s (.fire i)) := by
+theorem QuietAt.fire {s : State} (_h : Inv s) (i : Nat) : QuietAt i (step s (.fire i)) := by
   intro σ hσ
   cases hτ : s.timers[i]? with
   | none => rw [step_fire_none hτ] at hσ; rw [hτ] at hσ; cases hσ
@@ -1653,7 +1741,7 @@ theorem QuietAt.fire {s : State} (h : Inv s) (i : Nat) : QuietAt i (step s (.fir
     rw [step_fire_some hτ] at hσ ⊢
     simp only [List.getElem?_set, getElem?_lt hτ, ↓reduceIte, Option.some.injEq] at hσ
     subst hσ
-    exact fireOne_quiet _ _ _ _ (h.tinv τ (List.mem_iff_getElem?.mpr ⟨i, hτ⟩)).pos
+    exact fireOne_quiet _ _ _ _
 
 theorem QuietAt.calm {s : State} {i : Nat} (h : Inv s) (hq : QuietAt i s) {op : Op} (hc : op.calm = true) :
     QuietAt i (step s op) := by
@@ -1693,17 +1781,16 @@ theorem QuietAt.calm {s : State} {i : Nat} (h : Inv s) (hq : QuietAt i s) {op : 
   | mark => exact hq
   | hold => exact hq
   | psrelease => exact hq
+  | dropHandle j => exact hq
 
 theorem QuietAt.create {s : State} {i : Nat} (hq : QuietAt i s) (hi : i < s.timers.length) (k : Kind) (p : Nat) :
     QuietAt i (step s (.create k p)) := by
-  have e : step s (.create k p) = if k = .interval ∧ p = 0 then s
-      else { s with timers := s.timers ++ [{ kind := k, period := p, created := s.now }] } := rfl
+  have e : step s (.create k p) =
+      { s with timers := s.timers ++ [{ kind := k, period := p, created := s.now }] } := rfl
   rw [e]
-  split
-  · exact hq
-  · intro σ hσ
-    simp only [List.getElem?_append_left hi] at hσ
-    exact hq σ hσ
+  intro σ hσ
+  simp only [List.getElem?_append_left hi] at hσ
+  exact hq σ hσ
 
 theorem steps_cons (s : State) (op : Op) (l : List Op) : steps s (op :: l) = steps (step s op) l := rfl
 theorem steps_append (s : State) (l1 l2 : List Op) : steps s (l1 ++ l2) = steps (steps s l1) l2 := by
@@ -1774,7 +1861,9 @@ theorem MT.attempt {now : Nat} {vs : List Nat} {τ : Timer} (h : MT now vs τ) (
 theorem Micro.mt {now id : Nat} {vs : List Nat} {x y : Timer × Target} (m : Micro now id x y)
     (h : MT now vs x.1) : MT now vs y.1 := by
   cases m with
-  | arm τ T hp ha =>
+  | panic τ T hp hk hz =>
+    exact { ac := h.ac, fresh := by intro _ e; simp at e, prompt := h.prompt, next := by simp }
+  | arm τ T hp ha _ =>
     exact { ac := by intro a e; simp only [arm_armed, ha, Option.getD_none, Option.some.injEq] at e
                      rw [← e]; exact (h.fresh ha hp).symm
             fresh := by simp
@@ -1830,11 +1919,9 @@ theorem MInv.step {s : State} (hm : MInv s) (hi : Inv s) {op : Op} (hnt : ∀ d,
   cases op with
   | tick d => exact absurd rfl (hnt d)
   | create k p =>
-    have e : Timers.step s (.create k p) = if k = .interval ∧ p = 0 then s
-        else { s with timers := s.timers ++ [{ kind := k, period := p, created := s.now }] } := rfl
+    have e : Timers.step s (.create k p) =
+        { s with timers := s.timers ++ [{ kind := k, period := p, created := s.now }] } := rfl
     rw [e]
-    split
-    · exact hm
     · refine ⟨hm.visits_le, ?_⟩
       intro τ hτ
       simp only [List.mem_append, List.mem_singleton] at hτ
@@ -1877,6 +1964,7 @@ theorem MInv.step {s : State} (hm : MInv s) (hi : Inv s) {op : Op} (hnt : ∀ d,
   | target => exact ⟨hm.visits_le, hm.mt⟩
   | hold => exact ⟨hm.visits_le, hm.mt⟩
   | psrelease => exact ⟨hm.visits_le, hm.mt⟩
+  | dropHandle j => exact ⟨hm.visits_le, hm.mt⟩
   | mark =>
     refine ⟨?_, ?_⟩
     · intro c hc
@@ -2001,14 +2089,12 @@ theorem BInv.mstep {s : State} (h : BInv s) (m : MOp) : BInv (mstep s m) := by
       by_cases hlt : i < s.timers.length
       · exact .inl ((h.quiet i).create hlt k p)
       · right
-        have e2 : Timers.step s (.create k p) = if k = .interval ∧ p = 0 then s
-            else { s with timers := s.timers ++ [{ kind := k, period := p, created := s.now }] } := rfl
+        have e2 : Timers.step s (.create k p) =
+            { s with timers := s.timers ++ [{ kind := k, period := p, created := s.now }] } := rfl
         rw [e2] at hi
-        split at hi
-        · exact absurd hi hlt
-        · simp only [List.length_append, List.length_singleton] at hi
-          have : i = s.timers.length := by omega
-          subst this; simp
+        simp only [List.length_append, List.length_singleton] at hi
+        have : i = s.timers.length := by omega
+        subst this; simp
   | adv d =>
     have e : expand s (.adv d) = [.tick d] ++ ((fireAll s.timers.length ++ [.target]) ++ [.mark]) := by
       simp [expand]
@@ -2099,6 +2185,23 @@ theorem BInv.mstep {s : State} (h : BInv s) (m : MOp) : BInv (mstep s m) := by
     apply BInv.of_calm h.inv h.minv
     · intro op hop; simp at hop; rcases hop with rfl | rfl <;> rfl
     · intro i _; exact .inl (h.quiet i)
+  | dropHandle j =>
+    have e : expand s (.dropHandle j) = [.dropHandle j] ++ [.mark] := rfl
+    rw [e, steps_snoc]
+    apply BInv.of_calm h.inv h.minv
+    · intro op hop; simp at hop; subst hop; rfl
+    · intro i _; exact .inl (h.quiet i)
+  | advDrop d j =>
+    have e : expand s (.advDrop d j) =
+        [.tick d] ++ (([.dropHandle j] ++ fireAll s.timers.length ++ [.target]) ++ [.mark]) := by
+      simp [expand]
+    rw [e, steps_append, steps_snoc, steps_single]
+    apply BInv.of_calm (h.inv.step _) (h.minv.tick h.quiet d)
+    · intro op hop
+      exact calm_mem [.target] [.dropHandle j] (by intro o ho; simp at ho; subst ho; rfl) op hop
+        (by intro o ho; simp at ho; subst ho; rfl)
+    · intro i hi
+      exact .inr (List.mem_append_left _ (List.mem_append_right _ (fire_mem_fireAll hi)))
 
 theorem BInv.mrun {s : State} (h : BInv s) (ms : List MOp) : BInv (mrun s ms) := by
   induction ms generalizing s with
@@ -2180,7 +2283,21 @@ theorem BInv.okPrompt {s : State} (h : BInv s) : okPrompt s = true := by
         · exact .inr (fun hp => hk ⟨hk1, hp⟩)
         · exact .inl (by simpa using hk1)
       simp [this]
+  have h4 : (!(τ.kind == .interval && τ.period == 0 && τ.res == .pending)) = true := by
+    by_cases hk : (τ.kind = .interval ∧ τ.period = 0) ∧ τ.res = .pending
+    · obtain ⟨⟨hk, hz⟩, hp⟩ := hk
+      obtain ⟨a, ha, _⟩ := hq hp
+      have := ht.pos hk (by simp [ha])
+      omega
+    · have : (τ.kind == .interval && τ.period == 0 && τ.res == .pending) = false := by
+        simp only [Bool.and_eq_false_iff, beq_eq_false_iff_ne, ne_eq]
+        by_cases hk1 : τ.kind = .interval
+        · by_cases hz : τ.period = 0
+          · exact .inr (fun hp => hk ⟨⟨hk1, hz⟩, hp⟩)
+          · exact .inl (.inr hz)
+        · exact .inl (.inl hk1)
+      simp [this]
   unfold timerPromptOk
-  rw [hm.prompt, h2, h3]; rfl
+  rw [hm.prompt, h2, h3, h4]; rfl
 
 end Timers
